@@ -1097,13 +1097,13 @@ fn c08(ix: &Ix, f: &mut Findings) {
             m
         };
         for (p, inv) in &x.run_poll {
-            if *p > c {
+            if *p > c || !ix.sim() {
+                // MT: a message may arrive between the mailbox poll and the on_run poll of one select! pass
                 continue;
             }
             f.o("C08.msg_first");
             for (e, h, uid) in &acc {
                 if e < p && h.map(|h| h > *p).unwrap_or(true) {
-                    // In MT the message may be taken but its HEnter not yet logged only if the handler had started: then on_run is not polled. Sound in both modes.
                     f.v("C08.msg_first", Some(a), format!("actor {a}: on_run (invocation {inv}) was polled at log position {p} while uid {uid}, accepted at {e}, was waiting in the mailbox"));
                     break;
                 }
@@ -1697,11 +1697,12 @@ fn c20(ix: &Ix, f: &mut Findings) {
     if !ix.meta.metrics_feature {
         return;
     }
-    let mut last_count: BTreeMap<usize, u64> = BTreeMap::new();
+    let mut last_count: BTreeMap<(usize, &'static str), u64> = BTreeMap::new();
     for (i, e) in ix.log.iter().enumerate() {
         let K::Metrics {
             actor,
             via,
+            pre,
             count,
             avg_ns,
             max_ns,
@@ -1715,6 +1716,7 @@ fn c20(ix: &Ix, f: &mut Findings) {
         let a = *actor;
         let x = &ix.actors[a];
         f.o("C20.sample");
+        let pre = (*pre as usize).min(i);
         // entered handlers whose processing is over at this point
         let entered = x.henter.iter().filter(|h| h.0 < i).count() as u64;
         let in_progress = if ix.hook_in_progress(a, i) && x.henter.iter().rev().find(|h| h.0 < i).map(|h| !x.hexit.iter().chain(x.hpanic.iter()).any(|c| c.1 == h.1 && c.0 < i)).unwrap_or(false) {
@@ -1722,17 +1724,24 @@ fn c20(ix: &Ix, f: &mut Findings) {
         } else {
             0
         };
-        let (lo, hi) = if ix.sim() { (entered - in_progress, entered - in_progress) } else { (entered.saturating_sub(1), entered + 1) };
+        let (lo, hi) = if ix.sim() {
+            (entered - in_progress, entered - in_progress)
+        } else {
+            // values were read between `pre` and `i`; a handler whose exit is logged records its duration right afterwards
+            let exited_before_read = (x.hexit.iter().chain(x.hpanic.iter()).filter(|h| h.0 < pre).count() as u64).saturating_sub(1);
+            (exited_before_read, entered)
+        };
         if *count < lo || *count > hi {
-            f.v("C20.count", Some(a), format!("actor {a} ({via}): message_count {count} at log position {i}, but {entered} user message handlers were entered ({in_progress} still in progress)"));
+            f.v("C20.count", Some(a), format!("actor {a} ({via}): message_count {count} at log position {i}, but {entered} user message handlers were entered ({in_progress} still in progress; accepted range {lo}..={hi})"));
         }
-        if let Some(prev) = last_count.get(&a) {
+        if let Some(prev) = last_count.get(&(a, *via)) {
             if count < prev {
-                f.v("C20.monotone", Some(a), format!("actor {a}: message_count went from {prev} to {count}"));
+                f.v("C20.monotone", Some(a), format!("actor {a}: message_count read through {via} went from {prev} to {count}"));
             }
         }
-        last_count.insert(a, *count);
-        if in_progress == 0 {
+        last_count.insert((a, *via), *count);
+        let quiescent = if ix.sim() { in_progress == 0 } else { x.ended_pos().map(|p| p < pre).unwrap_or(false) };
+        if quiescent {
             if avg_ns > max_ns {
                 f.v("C20.avg_le_max", Some(a), format!("actor {a}: avg_processing_time {avg_ns} ns > max_processing_time {max_ns} ns at quiescence"));
             }
